@@ -27,6 +27,8 @@ type StressOpts struct {
 	CloseMid bool // Close races with everything (C10)
 	BG       bool // background sync + compaction workers
 	Prefill  int
+	SyncW    bool // sync after every write (BackgroundSyncInterval = -1)
+	HoldBG   bool // park the background compaction at its first yield point and call Close meanwhile (C10: Close waits for it)
 	Grow     bool // workers mostly insert NEW keys: the index splits while compaction and scans run
 	Seed     int64
 	MaxSeg   uint32
@@ -46,17 +48,26 @@ type StressResult struct {
 // order of the lines is consistent with real time.
 func Stress(rec *Rec, o StressOpts) StressResult {
 	res := StressResult{}
-	cfg := Cfg{FS: o.FS, MaxSeg: o.MaxSeg, MinSeg: 1, MinFrag: 0.0001, Strict: false}
+	cfg := Cfg{FS: o.FS, MaxSeg: o.MaxSeg, MinSeg: 1, MinFrag: 0.0001, Strict: false, SyncW: o.SyncW}
 	s := &Sess{R: rec, Cfg: cfg, Root: o.Root, Dir: o.Dir, Universe: map[string][]byte{}}
-	rec.Emit(Ev{"e": "reset", "syncw": false, "strict": false, "bg": o.BG, "dur": false, "id": o.ID, "fs": o.FS,
+	rec.Emit(Ev{"e": "reset", "syncw": o.SyncW, "strict": false, "bg": o.BG, "dur": false, "id": o.ID, "fs": o.FS,
 		"run": Ev{"cmd": "stress", "workers": o.Workers, "ops": o.OpsEach, "keys": len(o.Keys), "maint": o.Maint, "closemid": o.CloseMid, "seed": o.Seed}})
 	for _, k := range o.Keys {
 		s.use([]byte(k))
 	}
 	opts := cfg.Options(o.Root)
 	if o.BG {
-		opts.BackgroundSyncInterval = 2 * time.Millisecond
+		if !o.SyncW {
+			opts.BackgroundSyncInterval = 2 * time.Millisecond
+		}
 		opts.BackgroundCompactionInterval = 3 * time.Millisecond
+	}
+	// C10: a background compaction parked at its first yield point while Close is called
+	var hold *bgHold
+	if o.HoldBG && o.BG {
+		hold = newBGHold()
+		pogreb.VerifYield = hold.yield
+		defer func() { pogreb.VerifYield = nil }()
 	}
 	Logs.push()
 	db, err := pogreb.Open(o.Dir, opts)
@@ -88,6 +99,9 @@ func Stress(rec *Rec, o StressOpts) StressResult {
 	worker := func(t int, seed int64) {
 		defer wg.Done()
 		debug.SetPanicOnFault(true)
+		if hold != nil {
+			hold.register()
+		}
 		r := rand.New(rand.NewSource(seed))
 		for i := 0; i < o.OpsEach; i++ {
 			select {
@@ -154,6 +168,9 @@ func Stress(rec *Rec, o StressOpts) StressResult {
 		go func() {
 			defer wg.Done()
 			debug.SetPanicOnFault(true)
+			if hold != nil {
+				hold.register()
+			}
 			r := rand.New(rand.NewSource(o.Seed * 977))
 			nb := 0
 			for i := 0; i < o.OpsEach; i++ {
@@ -209,6 +226,28 @@ func Stress(rec *Rec, o StressOpts) StressResult {
 			}
 		}()
 	}
+	if o.Maint && !o.HoldBG {
+		ct2 := nthreads
+		nthreads++
+		wg.Add(1)
+		go func() {
+			// compaction keeps running next to Backup and the scans of the other maintenance goroutine
+			defer wg.Done()
+			if hold != nil {
+				hold.register()
+			}
+			for i := 0; i < o.OpsEach; i++ {
+				select {
+				case <-stop:
+					return
+				default:
+				}
+				s.Do(Op{Op: "compact", T: ct2})
+				atomic.AddInt64(&progress, 1)
+				runtime.Gosched()
+			}
+		}()
+	}
 	closed := false
 	if o.CloseMid {
 		ct := nthreads
@@ -219,6 +258,32 @@ func Stress(rec *Rec, o StressOpts) StressResult {
 			target := int64(rng.Intn(o.Workers*o.OpsEach/2 + 1))
 			for atomic.LoadInt64(&progress) < target {
 				runtime.Gosched()
+			}
+			if hold != nil {
+				hold.register()
+				// wait (briefly) until the background worker sits in a compaction, then close
+				if g := hold.waitParked(300 * time.Millisecond); g != "" {
+					done := make(chan error, 1)
+					go func() { hold.register(); done <- s.Do(Op{Op: "close", T: ct}) }()
+					select {
+					case err := <-done:
+						// Close returned although a goroutine started by the database is still inside Compact
+						rec.Emit(Ev{"e": "leak", "what": "Close returned while the background compaction was still running:\n" + g})
+						res.Leak = true
+						hold.release()
+						if err == nil {
+							closed = true
+						}
+					case <-time.After(150 * time.Millisecond):
+						hold.release() // Close is waiting for the worker, as it should
+						if err := <-done; err == nil {
+							closed = true
+						}
+					}
+					atomic.StoreInt32(&closedFlag, 1)
+					return
+				}
+				hold.release()
 			}
 			if err := s.Do(Op{Op: "close", T: ct}); err == nil {
 				closed = true
@@ -239,7 +304,7 @@ wait:
 			p := atomic.LoadInt64(&progress)
 			if p != last {
 				last, lastT = p, time.Now()
-			} else if time.Since(lastT) > 20*time.Second {
+			} else if time.Since(lastT) > 60*time.Second {
 				buf := make([]byte, 1<<16)
 				n := runtime.Stack(buf, true)
 				rec.Emit(Ev{"e": "stuck", "what": string(buf[:n])})
@@ -339,4 +404,64 @@ func (b *barrier) leave() {
 		b.gen++
 		b.cond.Broadcast()
 	}
+}
+
+// bgHold parks goroutines that are NOT the harness's own (i.e. the database's background worker) at the
+// "compact.picked" yield point until released.
+type bgHold struct {
+	mu       sync.Mutex
+	own      map[int64]bool
+	parked   string
+	released bool
+	gate     chan struct{}
+}
+
+func newBGHold() *bgHold {
+	h := &bgHold{own: map[int64]bool{}, gate: make(chan struct{})}
+	h.own[goid()] = true
+	return h
+}
+
+func (h *bgHold) register() {
+	h.mu.Lock()
+	h.own[goid()] = true
+	h.mu.Unlock()
+}
+
+func (h *bgHold) yield(point string) {
+	if point != "compact.picked" {
+		return
+	}
+	h.mu.Lock()
+	if h.own[goid()] || h.released || h.parked != "" {
+		h.mu.Unlock()
+		return
+	}
+	buf := make([]byte, 4096)
+	h.parked = string(buf[:runtime.Stack(buf, false)])
+	h.mu.Unlock()
+	<-h.gate
+}
+
+func (h *bgHold) waitParked(d time.Duration) string {
+	deadline := time.Now().Add(d)
+	for time.Now().Before(deadline) {
+		h.mu.Lock()
+		p := h.parked
+		h.mu.Unlock()
+		if p != "" {
+			return p
+		}
+		time.Sleep(time.Millisecond)
+	}
+	return ""
+}
+
+func (h *bgHold) release() {
+	h.mu.Lock()
+	if !h.released {
+		h.released = true
+		close(h.gate)
+	}
+	h.mu.Unlock()
 }
